@@ -32,6 +32,9 @@ type srv struct {
 	mid  atomic.Uint64
 	// replicas is the replica count given to groups created through group() (0 on a standalone)
 	replicas uint32
+	// alt is a second liaison of the same cluster that runs the other query engine (row-based when the main liaison
+	// is vectorized): the coordinator-side plans of both engines are then exercised over the same data nodes
+	alt *srv
 }
 
 // boot starts a standalone server in this process. Any gomega failure inside the setup helpers panics.
@@ -62,13 +65,32 @@ func bootCluster(t *testing.T, nData int, dir string, liaisonFlags []string, dat
 	if err != nil {
 		t.Fatal(err)
 	}
-	return &srv{addr: addr, conn: conn, stop: func() {
+	sv := &srv{addr: addr, conn: conn}
+	var stopAlt func()
+	if len(liaisonFlags) == 0 { // the main liaison runs the default (vectorized) engine: add a row-engine coordinator
+		addr2, stopL2 := setup.LiaisonNode(cfg, "--measure-vectorized-enabled=false", "--stream-vectorized-enabled=false")
+		conn2, err := grpc.NewClient(addr2, grpc.WithTransportCredentials(insecure.NewCredentials()),
+			grpc.WithDefaultCallOptions(grpc.MaxCallRecvMsgSize(256<<20), grpc.MaxCallSendMsgSize(256<<20)))
+		if err != nil {
+			t.Fatal(err)
+		}
+		sv.alt = &srv{addr: addr2, conn: conn2}
+		stopAlt = func() {
+			conn2.Close()
+			stopL2()
+		}
+	}
+	sv.stop = func() {
 		conn.Close()
+		if stopAlt != nil {
+			stopAlt()
+		}
 		stopL()
 		for _, f := range stops {
 			f()
 		}
-	}}
+	}
+	return sv
 }
 
 func ctxT() (context.Context, context.CancelFunc) {
